@@ -114,9 +114,11 @@ def main():
         failures.extend(res["failures"])
         if res.get("budget_exhausted"):
             exhausted.append(p["harness"])
+        if any(not f.get("gave_up") for f in failures):
+            break  # a failure is already on the table: triage it instead of spending the budget of the other parts
 
     # ---- a part that executed nothing decides nothing: report it loudly instead of passing silently
-    empty_parts = [n for n, m in merged.items() if m["evaluations"] == 0 and not (a.only)]
+    empty_parts = [n for n, m in merged.items() if m["evaluations"] == 0 and not (a.only) and not failures]
     # ---- triage
     violations = 0
     flaky = []
